@@ -65,6 +65,24 @@ func (f *Fam) genInit(r *rand.Rand) string {
 			fmt.Fprintf(&sb, " val %s %d %d", hx(Keys[ki].Addr), tok, j)
 		}
 	}
+	if f.replicaOn() && r.Intn(2) == 0 {
+		// an exported genesis: signing infos and missed-block arrays of a chain that has been running
+		// (for genesis validators and for addresses that are no validators any more)
+		for _, ki := range r.Perm(NKeys)[:2+r.Intn(7)] {
+			a := hx(Keys[ki].Addr)
+			n := r.Intn(int(window) + 1)
+			missed := 0
+			var mb strings.Builder
+			for i := 0; i < n; i++ {
+				b := r.Intn(3) == 0
+				if b {
+					missed++
+				}
+				fmt.Fprintf(&mb, " mb %s %d %s", a, i, b01(b))
+			}
+			fmt.Fprintf(&sb, " si %s 0 %d %d 0 0%s", a, n%int(window), missed, mb.String())
+		}
+	}
 	f.gen = genState{phase: 1, reliab: map[string]float64{}, maxBlocks: 8 + r.Intn(40)}
 	if f.Profile == "downtime" {
 		f.gen.maxBlocks = int(window) + 20 + r.Intn(2*int(window))
